@@ -8,7 +8,8 @@ ID = "C12"
 MODULE = "JmesVerif.Props.C12"
 THEOREMS = ["C12_linecol", "C12_linecol_boundary", "C12_render", "C12_token_positions", "C12_lex_error_position",
             "C12_parse_offsets", "C12_parse_error_offset", "C12_validate_error_offset", "C12_unknown_function_offset",
-            "C12_invalid_slice_offset", "C12_error_vocabulary"]
+            "C12_invalid_slice_offset", "C12_error_vocabulary",
+            "C12_runtime_error_names_call", "C12_runtime_error_located_deep", "C12_runtime_error_located", "C12_result_exprefs_from_input", "C12_parsed_literals_json", "C12_search_error_located", "C12_error_classes", "C12_no_panic_without_slice", "C12_slice_fault_needs_huge_array", "C12_literal_expref_escapes", "C12_internal_inhabited"]
 TRUSTED_BASE = [
     "Lean 4.33 kernel; axioms propext, Classical.choice, Quot.sound only",
     "hand-written models Model/Errors.lean (JmespathError::new, Display), Model/Lexer.lean, Model/Parser.lean, Model/Interp.lean tied to the code "
